@@ -411,6 +411,8 @@ sa_addr_from_str(sockaddr_storage_p addr,
 	}
 	/* AF_UNIX */
 	if ('/' == straddr[0] || '.' == straddr[0]) {
+		if (sizeof(((sockaddr_un_p)addr)->sun_path) <= addr_size)
+			return (EINVAL); /* Does not fit, do not truncate. */
 		sa_init(addr, AF_UNIX, straddr, 0);
 		return (0);
 	}
@@ -480,6 +482,8 @@ sa_addr_port_from_str(sockaddr_storage_p addr,
 	}
 	/* AF_UNIX */
 	if ('/' == straddr[0] || '.' == straddr[0]) {
+		if (sizeof(((sockaddr_un_p)addr)->sun_path) <= addr_size)
+			return (EINVAL); /* Does not fit, do not truncate. */
 		sa_init(addr, AF_UNIX, straddr, 0);
 		return (0);
 	}
